@@ -295,7 +295,10 @@ def check_encoder(prog, eff, fname):
         def flen(d):
             c, lo, hi = class_of(d)
             if c is None:
-                return None
+                # a refusing path that serves values of several head widths: it may refuse only what is too small for the
+                # SHORTEST of them (a value of that class fits as soon as that many bytes are there)
+                ls = [(1 if c_[3] else 1 + c_[2]) for c_ in cls if c_[0] <= hi and lo <= c_[1]]
+                return min(ls) if ls else None
             return 1 if c[3] else 1 + c[2]
         failing(flen)
         return res, len(ps)
